@@ -395,13 +395,21 @@ Fixpoint deal (k : nat) (capacity n t : N) : list N :=
             if i mod n =? t then (i + 1) :: deal k' capacity n t else deal k' capacity n t
   end.
 
-Fixpoint init_threads (capacity : N) (full : bool) (n t : N) (scripts : list (list op)) : list thread :=
+(* one client per script, initially between calls, holding the pages of the matching entry of hs (none if hs is shorter) *)
+Fixpoint mk_threads (hs : list (list N)) (scripts : list (list op)) : list thread :=
   match scripts with
   | [] => []
-  | scr :: r =>
-      mkT Ready (if full then [] else deal (N.to_nat capacity) capacity n t) scr
-      :: init_threads capacity full n (N.succ t) r
+  | scr :: r => mkT Ready (hd [] hs) scr :: mk_threads (tl hs) r
   end.
+
+Fixpoint deal_all (k : nat) (capacity n t : N) : list (list N) :=
+  match k with
+  | O => []
+  | S k' => deal (N.to_nat capacity) capacity n t :: deal_all k' capacity n (N.succ t)
+  end.
+
+Definition init_threads (capacity : N) (full : bool) (scripts : list (list op)) : list thread :=
+  mk_threads (if full then [] else deal_all (length scripts) capacity (lenN scripts) 0) scripts.
 
 (* generous bound on the number of round-robin rounds (not proved sufficient: "FUEL" would show up as a
    model/implementation disagreement) *)
@@ -453,7 +461,7 @@ Definition run_case (capacity : N) (full : bool) (scripts : list (list op)) (sch
   match construct c full with
   | (None, _) => OutCtorCrash
   | (Some s0, ub) =>
-      let st0 := mkState s0 (init_threads capacity full (lenN scripts) 0 scripts) in
+      let st0 := mkState s0 (init_threads capacity full scripts) in
       let '(st1, e1, n1) := exec c st0 sched in
       match run_rr (rr_fuel c (ths st1)) c st1 with
       | None => OutFuel
